@@ -11,9 +11,10 @@ import json, os, random, re, time
 from vlib import *
 
 K = 24  # keys per world (each replayed history gets its own key)
-ADMIN_IP = "10.0.0.1"
-IPS = {"listed": ADMIN_IP, "unlisted": "10.9.9.9", "none": ""}
-NEAR_IPS = ["10.0.0.10", "10.0.0.11", "10.0.0.100", "10.0.0.12", "10.0.0.19"]     # not listed; the text begins with the listed entry
+# (loopback addresses: over real TCP - the binary phase - a client can connect FROM any 127.x.y.z)
+ADMIN_IP = "127.0.0.1"
+IPS = {"listed": ADMIN_IP, "unlisted": "127.9.9.9", "none": ""}
+NEAR_IPS = ["127.0.0.10", "127.0.0.11", "127.0.0.100", "127.0.0.12", "127.0.0.19"]     # not listed; the text begins with the listed entry
 
 
 def ip_of(cls, rid):
@@ -532,17 +533,29 @@ def run(prop, tier, seed):
         # the SHIPPED PROGRAM: some of the same scenarios are sent to the real dirk binary over TLS (restart = SIGKILL and a new
         # process on the same storage); the recorded releases join the same trace
         binary = None
-        if prop in ("C01", "C02", "C09"):
-            ok_kinds = {"att", "atts", "prop", "restart"}
+        if prop in ("C01", "C02", "C09", "C05"):
+            ok_kinds = {"att", "atts", "prop", "restart"} | ({"gen", "multi"} if prop == "C05" else set())
             cand = [(b, s_) for b in builders for s_ in b.scenarios if not s_.get("prior") and all(o["kind"] in ok_kinds for o in s_["ops"])]
             withr = [c_ for c_ in cand if any(o["kind"] == "restart" for o in c_[1]["ops"])]
             plain = [c_ for c_ in cand if c_ not in withr]
-            cand = (withr[:4] + plain[:3] + plain[-1:]) if tier == "quick" else (withr[:20] + plain[:20])
+            if prop == "C05":
+                # the program's own reading of server.rules.admin-ips and its own view of the caller's address: scenarios with
+                # voluntary-exit requests from listed, unlisted and near-miss source addresses (the connection is BOUND to that address)
+                exits = [c_ for c_ in plain if any(o.get("dom") == "exit" for o in c_[1]["ops"])]
+                plain = exits[:10 if tier == "quick" else 80] + [c_ for c_ in plain if c_ not in exits]
+            cand = (withr[:4] + plain[:3] + plain[-1:]) if tier == "quick" and prop != "C05" else ((withr[:2] + plain[:12]) if tier == "quick" else (withr[:20] + plain[:20 if prop != "C05" else 100]))
             bscs, bmeta = [], {}
             for b, s_ in cand:
                 c_ = dict(s_, id=s_["id"] + "-bin")
+                m_ = dict(b.meta[s_["id"]])
+                if prop == "C05":
+                    # over TCP every request has a source address: one that states none comes from the listed 127.0.0.1
+                    c_["ops"] = [dict(o_, ip=ADMIN_IP) if o_["kind"] in ("gen", "multi") and not o_.get("ip") else o_ for o_ in s_["ops"]]
+                    for o_ in s_["ops"]:
+                        if o_["kind"] in ("gen", "multi") and not o_.get("ip") and o_["id"] in m_:
+                            m_[o_["id"]] = dict(m_[o_["id"]], ip="listed")
                 bscs.append(c_)
-                bmeta[c_["id"]] = (b.meta[s_["id"]], b.expect[s_["id"]]["floors"], c_)
+                bmeta[c_["id"]] = (m_, b.expect[s_["id"]]["floors"], c_)
             if bscs:
                 bevents, brc, berr = run_driver_parallel_bin(bscs, wd, build_dirk())
                 if brc != 0:
